@@ -252,7 +252,14 @@ func (ex *Exec) siteMake(fr *Frame, in *ssa.MakeSlice, pc Term, st State, n, c T
 }
 
 func (ex *Exec) recvAssume(fr *Frame, in *ssa.UnOp, pc Term, st State, v Term) {
-	names := chanNames(in.X)
+	ex.recvAssumeValue(fr, in.X, pc, st, v)
+}
+
+// recvAssumeValue: a value received from a channel with a declared payload invariant
+// (`chan Type.field label: expr over value`) satisfies it; the invariant is an assumption
+// here and an obligation at the send sites that carry a matching `site send` clause.
+func (ex *Exec) recvAssumeValue(fr *Frame, chv ssa.Value, pc Term, st State, v Term) {
+	names := chanNames(chv)
 	for _, cs := range ex.g.cs.Chans {
 		if !contains(names, cs.Target) {
 			continue
@@ -262,7 +269,7 @@ func (ex *Exec) recvAssume(fr *Frame, in *ssa.UnOp, pc Term, st State, v Term) {
 		if v.Tuple != nil {
 			val = v.Tuple[0]
 		}
-		ct := in.X.Type().Underlying().(*types.Chan)
+		ct := chv.Type().Underlying().(*types.Chan)
 		se.vars["value"] = SVal{T: val, Ty: ct.Elem()}
 		fact, err := se.evalBool(cs.C.E)
 		if err == nil {
